@@ -361,12 +361,13 @@ def location_table(fb):
     f = fb.find(ITP + "file_library_factory")
     fields = [x["name"] for x in fb.adt("interpreter::interpreter::Interpreter")["variants"][0]["fields"]]
     rows = []
-    for has_dir in (True, False):
+    for has_dir in ("relative", "absolute", "empty", False):
         for exists in (True, False):
             name = Val("library-name")
             located = Enum(0, [name, some([3, 1])])
             located.name, located.adt = "Located", "error::Located"
             pd, cwd = PathTok("program-directory"), PathTok("working-directory")
+            pd.flavour, cwd.flavour = has_dir, "absolute"
             selfv = [UNKNOWN for _ in fields]
             selfv[fields.index("program_directory")] = some(pd) if has_dir else none()
             ev = []
@@ -381,6 +382,12 @@ def location_table(fb):
                     return ok([])
                 if c.endswith("LibraryName::path"):
                     return PathTok("relative-path-of-name")
+                if ("path::Path" in c or "PathBuf" in c) and end in ("is_absolute", "is_relative", "has_root") and a and isinstance(a[0], PathTok):
+                    # what kind of path the program was named by: `prog/main.scm` (relative), `/abs/prog/main.scm`, `main.scm` (empty parent)
+                    fl = getattr(a[0], "flavour", None)
+                    if fl not in ("relative", "absolute", "empty"):
+                        return UNKNOWN
+                    return (fl == "absolute") if end in ("is_absolute", "has_root") else (fl != "absolute")
                 if ("path::Path" in c or "PathBuf" in c) and end in ("join", "with_extension", "push", "with_file_name", "to_path_buf", "to_owned",
                                                                     "as_path", "clone", "deref", "as_ref", "parent", "canonicalize"):
                     if end in ("join", "with_extension", "with_file_name") and isinstance(a[0], PathTok):
@@ -419,7 +426,8 @@ def rule_location(ctx, rule_loc, rule_err):
     f, rows = location_table(fb)
     decided = 0
     for (has_dir, exists), d in rows:
-        key = "library-file/%s,%s" % ("program-directory" if has_dir else "no-program-directory", "file-exists" if exists else "file-missing")
+        key = "library-file/%s,%s" % (("program-directory" if has_dir == "relative" else "%s-program-directory" % has_dir) if has_dir else "no-program-directory",
+                                      "file-exists" if exists else "file-missing")
         if "stuck" in d:
             ctx.undecided(rule_loc, key, "cannot follow file_library_factory (%s)" % d["stuck"], where_of(f))
             continue
@@ -430,11 +438,16 @@ def rule_location(ctx, rule_loc, rule_err):
         want_root = "program-directory" if has_dir else "working-directory"
         used_cwd = any(e[0] in ("current_dir", "set_current_dir") for e in ev)
         good = bool(paths) and roots == {want_root} and (used_cwd == (not has_dir)) and all("relative-path-of-name" in repr(p) for p in paths)
+        if has_dir == "empty" and bool(paths) and roots <= {"program-directory", "working-directory"} and all("relative-path-of-name" in repr(p) for p in paths):
+            good = True          # an empty program directory IS the working directory
         ctx.inst(rule_loc, key, {"path_roots": sorted(roots), "working_directory_consulted": used_cwd})
         ctx.oblige(good)
         if not good:
-            ctx.report(rule_loc, key, "the library file is looked for under %s (working directory consulted: %s); expected the library's relative "
-                       "path under the %s" % (sorted(roots) or "nothing", used_cwd, want_root.replace("-", " ")), where_of(f))
+            ctx.report(rule_loc, key, "with %s the library file is looked for under %s (working directory consulted: %s); expected the library's "
+                       "relative path under the %s" % (
+                           {"relative": "a program named by a relative path with a directory part (prog/main.scm)", "absolute": "a program named by an absolute path",
+                            "empty": "a program named by a bare file name", False: "no program directory (library interface)"}[has_dir],
+                           sorted(roots) or "nothing", used_cwd, want_root.replace("-", " ")), where_of(f))
         if exists:
             good2 = getattr(res, "name", None) == "Ok" and any(e[0] == "parse" for e in ev)
             msg = "an existing library file yields %r" % (res,)
@@ -600,4 +613,79 @@ def rule_statement(ctx, rule):
             ctx.report(rule, key, "evaluating a %s in the body of a library writes %s; expected exactly one binding, `%s`, in the library's own "
                        "environment — a write to the interpreter's environment or syntax environment makes an unexported definition visible to "
                        "the importer" % (kind.replace("-", " "), [(repr(e[1]), e[2]) for e in writes], name), where_of(f))
+    return decided
+
+
+# ------------------------------------------------------------------------------------------------ registering a factory
+
+
+def register_table(fb):
+    """Interpreter::register_library_factory(F) on an interpreter that has already instantiated the libraries X and Y: (a) F names X
+    (a replacement): X's instance must go, Y's must stay; (b) F names a new library Z: both instances stay.  The factory table ends
+    up holding F under its name in both cases."""
+    f = fb.find(ITP + "register_library_factory")
+    fields = [x["name"] for x in fb.adt("interpreter::interpreter::Interpreter")["variants"][0]["fields"]]
+    fv = dict((n, i) for i, n in fb.variants("library_factory::GenericLibraryFactory"))
+    rows = []
+    for scenario in ("replaces-an-instantiated-library", "names-a-new-library"):
+        X, Y, Z = Val("library-X"), Val("library-Y"), Val("library-Z")
+        iX, iY = Val("instance-of-X"), Val("instance-of-Y")
+        target = X if scenario.startswith("replaces") else Z
+        factory = Enum(fv["Native"], [target, Val("native-constructor")])
+        factory.name, factory.adt = "Native", "library_factory::GenericLibraryFactory"
+        cache, factories = Map(), Map()
+        cache.d[machine.key_of(X)] = (X, iX)
+        cache.d[machine.key_of(Y)] = (Y, iY)
+        oldF = Val("old-factory-of-X")
+        factories.d[machine.key_of(X)] = (X, oldF)
+        factories.d[machine.key_of(Y)] = (Y, Val("factory-of-Y"))
+        selfv = [UNKNOWN for _ in fields]
+        selfv[fields.index("libraries")] = cache
+        selfv[fields.index("lib_loader")] = [factories]
+        mc = Machine(fb, max_visits=8, budget=500)
+        try:
+            mc.run(f, [selfv, factory])
+        except (absint.Stuck, absint.Loop) as e:
+            rows.append((scenario, {"stuck": str(e)}))
+            continue
+        reg = factories.d.get(machine.key_of(target))
+        rows.append((scenario, {"cached": {k: v for k, (k0, v) in ((machine.key_of(k0), (k0, v)) for k0, v in cache.d.values())},
+                                "kX": machine.key_of(X), "kY": machine.key_of(Y), "iX": iX, "iY": iY,
+                                "registered": reg is not None and (reg[1] is factory or contains_id(reg[1], factory)),
+                                "n_factories": len(factories.d)}))
+    return f, rows
+
+
+def rule_register(ctx, rule):
+    fb = ctx.fb()
+    from .ctx import where_of
+    try:
+        f, rows = register_table(fb)
+    except mir.AnchorMissing as e:
+        ctx.undecided(rule, "register_library_factory", str(e))
+        return 0
+    decided = 0
+    for scenario, d in rows:
+        key = "register_library_factory/%s" % scenario
+        if "stuck" in d:
+            ctx.undecided(rule, key, "cannot follow register_library_factory (%s)" % d["stuck"], where_of(f))
+            continue
+        decided += 1
+        hasX, hasY = d["cached"].get(d["kX"]) is d["iX"], d["cached"].get(d["kY"]) is d["iY"]
+        if scenario.startswith("replaces"):
+            # (whether the instances of OTHER libraries survive a replacement is a design choice — they may have imported the old X —
+            # and is recorded as evidence only; that a NEW library leaves every instance alone is the row below)
+            good = (not hasX) and d["registered"]
+            msg = "registering a replacement for an instantiated library X: X's old instance %s, the new factory %s registered; expected X's " \
+                  "instance dropped (the replaced factory must not be shadowed by the instance of the old one) and the factory registered" % (
+                      "kept" if hasX else "dropped", "is" if d["registered"] else "is NOT")
+        else:
+            good = hasX and hasY and d["registered"]
+            msg = "registering a factory for a new library Z: the instances of X / Y are %s / %s, the factory %s registered; expected both " \
+                  "instances kept (a later import of X or Y must not build a second instance)" % (
+                      "kept" if hasX else "DROPPED", "kept" if hasY else "DROPPED", "is" if d["registered"] else "is NOT")
+        ctx.inst(rule, key, {"X_instance_kept": hasX, "Y_instance_kept": hasY, "registered": d["registered"]})
+        ctx.oblige(good)
+        if not good:
+            ctx.report(rule, key, msg, where_of(f))
     return decided
